@@ -5,6 +5,7 @@ import ast
 from typing import Dict, Optional
 
 from .. import cfg as cfgmod
+from .. import pat
 from .. import frames
 from ..index import AnalysisError, dotted_name, unparse
 
@@ -191,12 +192,14 @@ def _s3(program, res):
     if not o3 or not l3:
         raise AnalysisError("order_to_near_sql: ORDER BY / LIMIT suffix statements not found")
     lt3 = unparse(l3[0].stmt)
-    if l3[0].id in g3.reachable_from(o3[0].id) and o3[0].id not in g3.reachable_from(l3[0].id) and lt3.startswith("suffix = suffix + ["):
+    appended = pat.match("_S = _S + [__L]", l3[0].stmt) is not None or pat.match("_S.append(__L)", getattr(l3[0].stmt, "value", l3[0].stmt)) is not None
+    if l3[0].id in g3.reachable_from(o3[0].id) and o3[0].id not in g3.reachable_from(l3[0].id) and appended:
         res.ok("C18-S3", "SQL: LIMIT is appended after ORDER BY in the step's suffix")
     else:
         res.fail_at("C18-S3", sm, "limit-before-order-by", "the SQL suffix does not place LIMIT after ORDER BY", l3[0].stmt)
     # ORDER BY lists the order columns in the declared order
-    if "for ci in order_node.order_columns" in unparse(o3[0].stmt):
+    if any(isinstance(c, (ast.ListComp, ast.GeneratorExp)) and unparse(c.generators[0].iter) == "order_node.order_columns" and not c.generators[0].ifs
+           for c in ast.walk(o3[0].stmt)):
         res.ok("C18-S3", "SQL: ORDER BY lists order_columns in declared order")
     else:
         res.fail_at("C18-S3", sm, "order-by-columns", "ORDER BY terms are not built from order_node.order_columns in order", o3[0].stmt)
